@@ -68,6 +68,10 @@ type Deviation struct {
 type Input struct {
 	Devs   []Deviation `json:"deviations"`
 	Ignore bool        `json:"ignore_not_supported"`
+	// Rev: every deviating module carries a revision (it is then registered under two keys), and
+	// next to each one a module is loaded whose name extends the deviating module's name with "-x"
+	// (it sorts between those two keys)
+	Rev bool `json:"revisions_and_neighbours,omitempty"`
 }
 
 // path spells a target as an absolute schema path: steps are in module a unless they say g:.
@@ -96,6 +100,10 @@ func (in Input) files() []dump.File {
 	for _, m := range mods {
 		var sb strings.Builder
 		fmt.Fprintf(&sb, `module %s { namespace "urn:%s"; prefix %s; import a { prefix a; } import g { prefix g; }`, m, m, m)
+		if in.Rev {
+			sb.WriteString(" revision 2024-01-01;")
+			fs = append(fs, dump.File{Name: m + "-x.yang", Text: fmt.Sprintf(`module %s-x { namespace "urn:%s-x"; prefix %sx; }`, m, m, m)})
+		}
 		for _, d := range byMod[m] {
 			fmt.Fprintf(&sb, " deviation %s {", path(d.Target))
 			for _, x := range d.Seq {
@@ -624,12 +632,16 @@ var relDeviates = []deviate{{Kind: "not-supported"}, {"replace", []prop{{"config
 var tripleTargets = []string{"l", "ll", "u1/gll", "ch", "c/cc/y"}
 
 func run(c *core.Ctx) {
-	c.Res.Bound = fmt.Sprintf("%d targets (leaf with default and units, plain leaf, mandatory leaf, bounded leaf-list, list, config-false container, nested leaves, choice with default, anydata, leaf / leaf-list / list inside one of two uses of a grouping, rpc input leaf, two missing targets, a leaf, a leaf-list and a nested leaf grafted by another module's augments) x every single deviate (not-supported, unknown kind, add/replace/delete x 18 single properties and 5 property pairs) and every ordered pair of deviates (thorough: every ordered triple of single-property deviates on 5 targets), plus the ignore-not-supported option; two deviating modules on the same and on different targets; every ordered pair (one module and two) and triple of deviation statements over %d related targets (a node, its children, its ancestors) x %d deviates", len(targets), len(relTargets), len(relDeviates))
+	c.Res.Bound = fmt.Sprintf("%d targets (leaf with default and units, plain leaf, mandatory leaf, bounded leaf-list, list, config-false container, nested leaves, choice with default, anydata, leaf / leaf-list / list inside one of two uses of a grouping, rpc input leaf, two missing targets, a leaf, a leaf-list and a nested leaf grafted by another module's augments) x every single deviate (not-supported, unknown kind, add/replace/delete x 18 single properties and 5 property pairs) and every ordered pair of deviates (thorough: every ordered triple of single-property deviates on 5 targets), plus the ignore-not-supported option; singles and pairs also with deviating modules that carry a revision and have a neighbour module whose name extends theirs; two deviating modules on the same and on different targets; every ordered pair (one module and two) and triple of deviation statements over %d related targets (a node, its children, its ancestors) x %d deviates", len(targets), len(relTargets), len(relDeviates))
 	ds := deviates()
 	n := 0
-	one := func(in Input) {
+	var one func(in Input)
+	one = func(in Input) {
 		if c.Expired() {
 			return
+		}
+		if !in.Rev && strings.HasPrefix(c.Shard, "t/") {
+			defer func() { in.Rev = true; one(in) }()
 		}
 		caseNo, run := c.Begin()
 		if c.Skip(caseNo, run, in) {
